@@ -82,6 +82,7 @@ type Path struct {
 	asserts   map[string]*assertStat
 	viols     []Violation
 	outcome   string
+	violated  bool
 	unsupMsg  string
 	pcInfeasible bool
 	harness   string
@@ -302,14 +303,10 @@ func (p *Path) assertProp(c *Term, label string) {
 	}
 	st.Violated++
 	p.viols = append(p.viols, Violation{Label: label, Kind: "assert", Inputs: p.inputsWithModel(model), Trace: p.traceInts(), Harness: p.harness, Log: append([]string{}, p.log...)})
-	// continue on the side where it holds, if any
-	if c.cst {
-		panic(pathAbort{"violated"})
-	}
-	if p.sol.Check(c) != Sat {
-		panic(pathAbort{"violated"})
-	}
-	p.sol.Assert(c)
+	// the path continues with its condition unchanged, so that later assertions (possibly owned by
+	// another property) are still evaluated: one defect must not mask another behind the first
+	// failing assertion
+	p.violated = true
 }
 
 func (p *Path) traceInts() []int {
@@ -490,6 +487,9 @@ func (e *Engine) runPath(harness *ssa.Function, prefix []int, sol *Solver) (p *P
 				p.unsupMsg = x.msg
 			case pathAbort:
 				p.outcome = x.kind
+				if x.kind == "done" && p.violated {
+					p.outcome = "violated"
+				}
 				if x.kind == "blocked" {
 					p.viols = append(p.viols, Violation{Label: "blocked-forever", Kind: "blocked", Inputs: p.inputsWithModelNow(), Trace: p.traceInts(), Harness: p.harness, Detail: p.unsupMsg, Log: append([]string{}, p.log...)})
 				}
@@ -513,6 +513,9 @@ func (e *Engine) runPath(harness *ssa.Function, prefix []int, sol *Solver) (p *P
 	}()
 	p.callFunction(harness, nil, nil, nil)
 	p.outcome = "done"
+	if p.violated {
+		p.outcome = "violated" // no witness is drawn from a path on which an assertion failed
+	}
 	return p
 }
 
